@@ -43,6 +43,7 @@ mod html_tok;
 mod suite_html;
 mod lex_layout;
 mod suite_lex;
+mod suite_bytes;
 mod tree;
 
 use common::Sink;
@@ -82,6 +83,7 @@ fn main() {
         "fclone" => suite_fclone::run(seed, count, tier, &mut sink),
         "lex" => suite_lex::run(seed, count, tier, &mut sink),
         "fidx" => suite_fidx::run(seed, count, tier, &mut sink),
+        "bytes" => suite_bytes::run(seed, count, tier, &mut sink),
         _ => {
             eprintln!("unknown suite {}", suite);
             std::process::exit(2);
